@@ -295,8 +295,66 @@ def check(case, rec=None):
                 continue
             ex = exp if t == th else expected_rows(vol, t, omegas)[0]
             fails += compare("peaksearcher(threshold %g)" % t, outs[t].getvalue(), vol, t, omegas, ex)
+    # ---- driver 3: the command line program (scripts/peaksearch.py = peaksearcher.peaksearch_driver) on image
+    # files: EDF frames on disk, rotation angle in the header ("Omega", or another motor named with --omega_motor)
+    # or given by -T start -S step with --OmegaOverRide; reader thread or --singleThread; several -t at once
+    scr = "none"
+    if case.get("imtype", "f32") in ("f32", "u16", "i32", "f64") and (case["seed"] * 2654435761 >> 11) % 6 == 0:
+        import os, shutil, argparse, contextlib, fabio
+        mode = ["Omega", "motor", "override"][(case["seed"] * 2654435761 >> 15) % 3]
+        one = bool((case["seed"] * 2654435761 >> 19) % 2)
+        scr = "script:%s:%s" % (mode, "one_thread" if one else "reader_thread")
+        d = os.path.join(os.environ.get("VERIF_TMP", "."), "c12_script_%d" % os.getpid())
+        shutil.rmtree(d, ignore_errors=True)
+        os.makedirs(d)
+        # the angle a frame is taken at by the program: header value (4 decimals written) or start + k * step
+        step_eff = case["step"] if case["step"] != 0 else 1.0
+        om_used = [round(float(o), 4) for o in omegas] if mode != "override" else \
+            [case["om0"] + k * step_eff for k in range(len(vol))]
+        for k in range(len(vol)):
+            hd = {}
+            if mode == "Omega":
+                hd["Omega"] = "%.4f" % omegas[k]
+            elif mode == "motor":
+                hd["diffrz"] = "%.4f" % omegas[k]
+            else:
+                hd["Omega"] = "%.4f" % (omegas[k] + 33.0)             # must be ignored
+            fabio.edfimage.edfimage(data=as_image(vol[k], case.get("imtype", "f32")), header=hd).write(
+                os.path.join(d, "fr%04d.edf" % k))
+        tlist = sorted(set([th, 0.5, 20.5]))
+        args = ["-n", os.path.join(d, "fr"), "-f", "0", "-l", str(len(vol) - 1), "-o", os.path.join(d, "pk.spt"),
+                "-p", "Y"]
+        for t in tlist:
+            args += ["-t", repr(float(t))]
+        if mode == "motor":
+            args += ["--omega_motor", "diffrz"]
+        elif mode == "override":
+            args += ["--OmegaOverRide", "-T", repr(float(case["om0"])), "-S", repr(float(step_eff))]
+        if one:
+            args += ["--singleThread"]
+
+        def run_script():
+            parser = peaksearcher.get_options(argparse.ArgumentParser())
+            options, rest = parser.parse_known_args(args)
+            with contextlib.redirect_stdout(io.StringIO()):
+                peaksearcher.peaksearch_driver(options, rest)
+        ok, e = guard(run_script)
+        if not ok:
+            fails.append(exc_failure("peaksearch_driver", e))
+        else:
+            oms = np.array(om_used, float)
+            for t in tlist:
+                name = os.path.join(d, "pk_t%d.flt" % t)
+                if not os.path.exists(name):
+                    fails.append(fail("format", "peaksearch_driver wrote no %s" % os.path.basename(name),
+                                      driver="script"))
+                    continue
+                ex = expected_rows(vol, t, oms)[0]
+                fails += compare("peaksearch_driver(%s, -t %g)" % (scr, t), open(name).read(), vol, t, oms, ex)
+        shutil.rmtree(d, ignore_errors=True)
     if rec is not None:
         rec.case(case, fork > 0, ["kind:" + case["kind"], "th:" + case["thpos"], "image:" + case.get("imtype", "f32")] + (["fork_or_join"] if fork else []) +
+                 ([scr] if scr != "none" else []) +
                  (["no_peaks"] if not exp else []))
         rec.note("components_compared", len(exp))
     return fails
